@@ -506,6 +506,7 @@ class Verifier:
         eng.alts = []
         npaths = 0
         incomplete = None
+        path_unsupported = None
         t_explore = time.time()
         completed = 0
         requires_sat = False
@@ -612,6 +613,12 @@ class Verifier:
                         pass
             except PathEnd:
                 pass
+            except Unsupported as ex_path:
+                # this path runs into something the engine cannot follow: the exploration is incomplete (nothing is proved),
+                # but what the other paths refute still stands
+                if npaths == 0 and not eng.alts:
+                    raise
+                path_unsupported = path_unsupported or str(ex_path)
             npaths += 1
             for ob in eng.obligations:
                 ob.info['params'] = params_entry
@@ -688,6 +695,8 @@ class Verifier:
                                        'kind': insts[0].kind, 'result': verdict, 'backend': '+'.join(sorted(backend)) or 'simplify',
                                        'solver_s': round(secs, 3), 'instances': len(insts), 'cex': cex,
                                        'clause': name})
+        if path_unsupported and not incomplete:
+            incomplete = path_unsupported
         if incomplete:
             # not every path was explored: a refutation found on an explored path stands (its counter-model is replayed like
             # any other), nothing else is decided
